@@ -71,7 +71,7 @@ pub fn sweep_layout(ctx: &mut Ctx) -> std::sync::Arc<Vec<SweepItem>> {
     }
     use crate::simdisk::{FaultKind, PlacedFault};
     let mut items = Vec::new();
-    let real: Vec<usize> = (0..ctx.corpus.len()).filter(|i| !ctx.corpus[*i].name.starts_with("synth-")).collect();
+    let real: Vec<usize> = (0..ctx.corpus.len()).filter(|i| !ctx.corpus[*i].name.starts_with("synth-") || ctx.corpus[*i].name.contains(".dual.")).collect();
     // quick: a third of the fixtures in rotation order would depend on the seed; take every file but cap the events
     let cap = match ctx.tier {
         Tier::Quick => 40usize,
@@ -97,9 +97,6 @@ pub fn sweep_layout(ctx: &mut Ctx) -> std::sync::Arc<Vec<SweepItem>> {
             let step = (n + cap - 1) / cap.max(1);
             for e in (0..n).step_by(step.max(1)) {
                 for kind in [FaultKind::Eio, FaultKind::Eintr] {
-                    if entry == Entry::Auto && kind == FaultKind::Eintr {
-                        continue;
-                    }
                     // EINTR is a behaviour of reads: placing it on a seek would be a fault without workload
                     if kind == FaultKind::Eintr && open_kinds.get(e) != Some(&b'r') {
                         continue;
@@ -407,10 +404,21 @@ pub fn check(ctx: &mut Ctx, spec: &RunSpec, ex: &Execution) -> (Vec<Violation>, 
             probes.push("open_fails_both_ways".into());
             return (viol, probes);
         }
-        (Outcome::Err(e), _) if open_faulted || open_eintr => {
-            if open_eintr && !open_faulted {
-                probes.push("eintr_surfaced_at_open".into());
-            }
+        // `ErrorKind::Interrupted` is retryable by contract and every read path of calamine and of
+        // its dependencies retries it (cfb did not; repaired, 8a8dd68): an open that fails when
+        // nothing but EINTR was injected is a violation, no longer a probe
+        (Outcome::Err(e), _) if open_eintr && !open_faulted => {
+            viol.push(Violation {
+                class: "mismatch".into(),
+                origin: "C07:eintr-surfaced:open".into(),
+                client: String::new(),
+                msg: format!("{} via {}", fx.name, spec.entry.name()),
+                op: 0,
+                detail: format!("open failed with {} although only ErrorKind::Interrupted was injected; on a perfect disk it opens", e),
+            });
+            return (viol, probes);
+        }
+        (Outcome::Err(e), _) if open_faulted => {
             if open_faulted && spec.entry == Entry::Auto {
                 probes.push("error_fault_during_auto_detection".into());
             }
@@ -504,7 +512,7 @@ pub fn check(ctx: &mut Ctx, spec: &RunSpec, ex: &Execution) -> (Vec<Violation>, 
         let same = match (&rec.op, &rec.outcome, &want) {
             // `worksheets()` swallows errors: under an error fault entries may be missing, but
             // every entry present must equal the model's entry of that name
-            (Op::Worksheets, Outcome::Ok(_), Outcome::Ok(_)) if (err_fault || dead || eintr) && !rec.outcome.same(&want) => {
+            (Op::Worksheets, Outcome::Ok(_), Outcome::Ok(_)) if (err_fault || dead) && !rec.outcome.same(&want) => {
                 probes.push("worksheets_lost_entries_under_fault".into());
                 worksheets_subset(m, rec.header, &rec.worksheets)
             }
@@ -523,10 +531,16 @@ pub fn check(ctx: &mut Ctx, spec: &RunSpec, ex: &Execution) -> (Vec<Violation>, 
             }
             // `None` from an Option-returning call means "no such sheet / no VBA project": under a
             // fault that is wrong data, not a failure (vba_project used to do this; repaired, ab7a206)
-            Outcome::Err(_) if eintr => {
-                probes.push("eintr_surfaced_as_error".into());
-                last_failed_with_fault = true;
-                continue;
+            Outcome::Err(e) if eintr => {
+                viol.push(Violation {
+                    class: "mismatch".into(),
+                    origin: format!("C07:eintr-surfaced:{}", op_label(&rec.op)),
+                    client: String::new(),
+                    msg: format!("{:?} under header {:?}", rec.op, rec.header),
+                    op: opi,
+                    detail: format!("the call failed with {} although only ErrorKind::Interrupted was delivered during it; a fresh reader over a perfect disk returns {}", e, want.brief()),
+                });
+                break;
             }
             Outcome::Panic(p) => {
                 viol.push(Violation {
@@ -674,4 +688,21 @@ pub fn final_spec(ctx: &mut Ctx, idx: u64) -> RunSpec {
 pub fn run(ctx: &mut Ctx, idx: u64) -> RunResult {
     let spec = final_spec(ctx, idx);
     exec_spec(ctx, &spec, idx)
+}
+
+/// API name of a call, for violation labels.
+fn op_label(op: &Op) -> &'static str {
+    match op {
+        Op::Range(_) => "worksheet_range",
+        Op::RangeRef(_) => "worksheet_range_ref",
+        Op::RangeAt(_) => "worksheet_range_at",
+        Op::RangeAtRef(_) => "worksheet_range_at_ref",
+        Op::Worksheets => "worksheets",
+        Op::Formula(_) => "worksheet_formula",
+        Op::MergeCells(_) | Op::MergeCellsAt(_) => "worksheet_merge_cells",
+        Op::LoadMerged | Op::MergedAll | Op::MergedBySheet(_) => "merged_regions",
+        Op::LoadTables | Op::TableNames | Op::TableNamesInSheet(_) | Op::TableByName(_) | Op::TableByNameRef(_) => "tables",
+        Op::Vba => "vba_project",
+        _ => "other",
+    }
 }
